@@ -1,26 +1,85 @@
-"""Per-property metadata used by ./check (budgets in seconds per worker, evidence texts)."""
+"""Per-property metadata used by ./check and mkmanifest.py (budgets in seconds per worker)."""
 
 ORDER_ASSUMPTION = ("evaluation order is the book's 'executed from top to bottom' plus left-to-right inside an "
                     "expression (the only order the Bit Machine can produce for pair/comp)")
 JET_ASSUMPTION = ("the meaning of a jet is taken from the real C implementation (one-node Bit Machine); "
                   "simfony is judged on which values reach the jet and in which order")
+PRUNE_ASSUMPTION = ("values of sub-terms that the program never inspects are compared modulo Simplicity's pruning "
+                    "to unit (such parts have type 1 on chain)")
+EXEC_RULE = ("One execution = text -> TemplateProgram::new -> instantiate -> commit -> satisfy -> encode_to_vec -> "
+             "RedeemNode::decode -> BitMachine::exec (dummy env), with the trace machine recording jet / unwrap / fail "
+             "/ marker events of the decoded program; judged against the reference interpreter (verdict + event log). ")
 
 PROPS = {
     "C01": {
         "level": "translation_validation",
-        "budget": {"quick": 55, "thorough": 900},
+        "budget": {"quick": 35, "thorough": 900},
         "min_evaluations": 2000,
         "min_counters": {"events_jet": 1000, "events_unwrap": 50, "runs_finished": 50, "runs_panicked": 50},
         "rule": ("G1 type-directed programs (all expression forms / type constructors), probe literals filled by a "
                  "first reference run; each program is compiled with debug symbols off and on and executed for every "
                  "witness assignment (exhaustive when the space has <= 2^12 points, else primary + boundaries + "
-                 "single-witness perturbations + random). One evaluation = one (program, debug, witness) execution "
-                 "through satisfy -> encode -> decode -> Bit Machine, judged against the reference interpreter: same "
-                 "verdict and same event log (jet inputs/outputs, unwrap scrutinees, fail, debug markers). "
+                 "single-witness perturbations + random). " + EXEC_RULE +
                  "distinct_nontrivial = distinct (program text, witness index, debug) hashes whose execution produced "
                  ">= 1 monitored event and whose log matched."),
-        "assumptions": [ORDER_ASSUMPTION, JET_ASSUMPTION,
-                        "values of sub-terms that the program never inspects are compared modulo Simplicity's pruning to unit"],
+        "assumptions": [ORDER_ASSUMPTION, JET_ASSUMPTION, PRUNE_ASSUMPTION],
+    },
+    "C07": {
+        "level": "exploration",
+        "budget": {"quick": 40, "thorough": 600},
+        "min_evaluations": 5000,
+        "min_counters": {"values_checked": 3000, "casts_accepted": 100, "casts_rejected": 1000, "cast_executions": 50},
+        "rule": ("Systematic types (every constructor over every leaf type; array sizes 0..17,31,32,33,64,255,256,1000; list "
+                 "bounds 2..512; nested containers) plus random types to depth 3. Per type: StructuralType walked through "
+                 "Final vs the harness's documented layout; per value (all values for domains <= 300, else boundaries, "
+                 "random, every list block boundary): StructuralValue vs documented layout, reconstruct round trip. Casts: "
+                 "all ordered pairs of a pool of layout-related types: accepted iff layouts equal; accepted casts executed "
+                 "with probes of the result read back at the target type. distinct_nontrivial = distinct types + distinct "
+                 "(type, value) + distinct ordered cast pairs that were judged."),
+        "assumptions": ["the documented layout is the book's type_casting.md table, implemented independently in harness/src/layout.rs"],
+    },
+    "C11": {
+        "level": "exploration",
+        "budget": {"quick": 40, "thorough": 400},
+        "min_evaluations": 5000,
+        "min_counters": {"accepted_literals": 1000, "rejected_literals": 1000, "runtime_comparisons": 20, "byte_string_literals": 50},
+        "rule": ("All nine widths x {0, 1, 2^N-1, 2^N, 2^N+1, 2^(N-1), 10^k, 10^k +- 1, random, wider random} x {decimal, "
+                 "binary, hex} x underscore placements (leading, trailing, doubled, between every digit, only "
+                 "underscores) x leading zeros x off-by-one digit counts x 300-digit runs. Oracle: the harness's own "
+                 "literal reader + 256-bit arithmetic. Judged: acceptance of `let x: uN = LIT;`, Value::parse_from_str "
+                 "against the Rust constructors, print-parse of the value, run-time eq_N against a constructor-built "
+                 "witness (right value finishes, neighbour panics), hex byte strings at [u8; n] for n = 0..40. "
+                 "distinct_nontrivial = distinct (width, literal text) judged."),
+        "assumptions": ["texts that are not a single literal token (`0x`, `0xg`) are judged for program acceptance only"],
+    },
+    "C13": {
+        "level": "exploration",
+        "budget": {"quick": 60, "thorough": 600},
+        "min_evaluations": 2000,
+        "min_counters": {"documented_call_ok": 460, "wrong_call_rejected": 500, "model_agreements": 3000, "jets_with_model": 250},
+        "rule": ("Every jet of Elements::ALL (471) from the documented signature table jets_golden.tsv (cross-checked "
+                 "against the Simplicity source/target types): the documented one-call program must compile and commit "
+                 "(the two reserved jets must be rejected); calls with one argument fewer / more, with two "
+                 "differently-typed arguments swapped, or with the result bound at another type must be rejected. For "
+                 "jets with a native closed-form model: boundary (all-zero, all-max, one-hot per argument) and random "
+                 "asymmetric argument tuples supplied as witnesses; the observed jet event (input tuple, output) and the "
+                 "probed result must equal the native model. distinct_nontrivial = distinct documented calls + distinct "
+                 "(jet, input) pairs on which model and observation agreed."),
+        "assumptions": [JET_ASSUMPTION.replace("taken from the real C implementation", "given by the harness's native models (jetmodel.rs) for ~300 jets"),
+                        "jets_golden.tsv freezes the documented signatures of the pinned commit"],
+    },
+    "C15": {
+        "level": "exploration",
+        "budget": {"quick": 30, "thorough": 300},
+        "min_evaluations": 20000,
+        "min_counters": {"maps": 1000, "byte_arrays": 1000, "duplicate_module_rejected": 500, "duplicate_json_rejected": 500},
+        "rule": ("Random types to depth 3 and targeted byte-array shapes ([u8; 0..64], nested, inside tuples / options / "
+                 "lists / arrays, next to u4/u16/u128/u256 arrays, empty and singleton containers) with random values; 15 "
+                 "small types with all their values. Per value: print -> parse == value, printed type parses back, an "
+                 "independent reader of the printed text yields the value. Per map (0-6 names): witness and param modules "
+                 "and JSON print-parse to an equal map, printing is insertion-order independent and sorted, duplicate "
+                 "names rejected in module and JSON form. distinct_nontrivial = distinct (type, printed value) + maps."),
+        "assumptions": ["the independent reader (textparse.rs) implements the book's value notation"],
     },
 }
 
@@ -35,5 +94,38 @@ MANIFEST_TEXT = {
         "note": ("Trusted: the harness's interpreter/layout (written from the book), simplicity-lang's decoder and Bit "
                  "Machine, the C jets as the meaning of jets. Reach = the generated family (bounded size, list bounds <= 16)."),
         "technique": "reference-model monitor over recorded executions (event-log comparison) + self-checking probe programs",
+    },
+    "C07": {
+        "text": ("Exploration with an independent layout oracle: simfony's structural types and values are observed "
+                 "through the public API for a systematic + random family of types and values and compared node by node "
+                 "with the documented layout; cast acceptance is compared over all ordered pairs of a type pool and "
+                 "accepted casts are executed with bit-level probes."),
+        "design_ref": "DESIGN.md 6 C07",
+        "note": "Trusted: harness layout.rs (from type_casting.md). Held on the explored types/values/pairs only.",
+        "technique": "reference-model monitor (independent layout function) over observed structural types/values; executed cast probes",
+    },
+    "C11": {
+        "text": ("Exploration over a dense family of literal texts with an independent literal reader and 256-bit "
+                 "arithmetic as oracle, observed at three boundaries: program acceptance, value parsing vs the Rust "
+                 "constructors, and run-time comparison on the real Bit Machine."),
+        "design_ref": "DESIGN.md 6 C11",
+        "note": "Trusted: harness u256.rs / parse_int_literal. Covers the listed widths, notations and edge forms, not all strings.",
+        "technique": "differential oracle (independent literal reader) + executed comparisons against constructor-built witnesses",
+    },
+    "C13": {
+        "text": ("Exploration over all 471 jets: documented calls must compile, malformed calls must not; for ~300 jets "
+                 "with a closed-form meaning the values observed at the jet node (trace event) and in the probed result "
+                 "are compared with native arithmetic on asymmetric inputs, which makes argument order and grouping visible."),
+        "design_ref": "DESIGN.md 6 C13",
+        "note": "Trusted: jets_golden.tsv (frozen documentation), jetmodel.rs. Jets without a model are checked for callability only.",
+        "technique": "golden-table conformance + native reference models compared with observed jet events",
+    },
+    "C15": {
+        "text": ("Exploration of print-parse round trips over random and targeted values, maps and types, with an "
+                 "independent reader of the printed text as a second oracle (so a printer and parser that are wrong in "
+                 "the same way are still caught) and duplicate-name rejection probes."),
+        "design_ref": "DESIGN.md 6 C15",
+        "note": "Trusted: textparse.rs. Held on the sampled values; small domains exhaustively.",
+        "technique": "round-trip and differential monitors over generated values and maps",
     },
 }
